@@ -17,6 +17,26 @@ CHECKS = [
      "Generated-input search over curve/surface/volume definitions (clamped/unclamped, repeated knots, affine ranges, rational) "
      "and parameters on/off knots; every evaluation entry point compared with an exact rational reference; grid size/order/corners checked.",
      BASE_NOTE, "DESIGN.md 5/C01"),
+ chk("C02", "property-based testing: generated shapes/parameters/orders vs exact polynomial derivatives (differential), hodograph and tangent/normal metamorphic relations",
+     "Generated-input search; derivatives of every order 0..degree+2 from both evaluator families compared with exact rational "
+     "derivatives (series division cross-validated by symbolic quotient rule); hodograph constructors and tangent/normal queries checked against the same reference.",
+     BASE_NOTE, "DESIGN.md 5/C02"),
+ chk("C03", "property-based testing: span/basis helpers vs reference definition and Cox-de Boor on exact polynomials; exhaustive enumeration of knot generation",
+     "Generated knot vectors of every multiplicity pattern and parameter class; identities (partition of unity, derivative sums) and exact values; "
+     "knot vector generation enumerated exhaustively over degree 1..7 x 12 sizes x clamped/unclamped; rejection of invalid vectors.",
+     BASE_NOTE, "DESIGN.md 5/C03"),
+ chk("C04", "property-based testing: metamorphic shape invariance under generated histories of knot insertions vs exact reference; exact knot-vector model",
+     "Generated insertion histories on curves/surfaces/volumes through function and method forms; shape compared with the exact reference of the original; knot vector and net size modelled exactly; over-multiplicity rejection leaves the object unchanged.",
+     BASE_NOTE, "DESIGN.md 5/C04"),
+ chk("C05", "property-based testing: metamorphic shape invariance under refinement + exact expected knot structure",
+     "Generated densities/directions and helper-level knot lists; shape compared with exact reference; refined knot vector compared with the exact dyadic subdivision model.",
+     BASE_NOTE, "DESIGN.md 5/C05"),
+ chk("C06", "property-based testing: stateful insert/remove histories with a ledger model of removable knots; round trip to original control points",
+     "Generated histories interleaving insertions (or refinement) and removals of knots removable by construction; shape vs exact reference, knot-vector ledger, control points restored after full removal.",
+     BASE_NOTE, "DESIGN.md 5/C06"),
+ chk("C07", "property-based testing: pieces of split/decomposition vs exact reference of the input under the affine domain map",
+     "Generated split parameters (inside spans, on knots of any multiplicity, knots of the other direction) and decomposition directions; every piece compared with the exact reference of the input on its sub-interval; piece counts, Bezier form, input unchanged, end splits rejected.",
+     BASE_NOTE, "DESIGN.md 5/C07"),
 ]
 DONE = set(c["property_id"] for c in CHECKS)
 NOT_APPLICABLE = [{"property_id": p, "reason": "check not built yet in this revision (work in progress; PBT applies, see DESIGN.md section 5)"}
